@@ -27,7 +27,7 @@ META = {
                    "slice_sparse_matrix, cs{r,c}_matrix_from_sparse_blocks, cs{r,c}_matrix_from_dense_blocks, "
                    "sparse_kronecker_product, rldecode and rlencode (with expand_index_pointers underneath) "
                    "executed on matrices / arrays with symbolic values vs the dense numpy operation",
-    "assumptions": ["floats as exact reals", "lines_to_replace of merge_matrices strictly increasing",
+    "assumptions": ["floats as exact reals", "lines_to_replace of merge_matrices duplicate-free (duplicates are rejected by the code), any order",
                     "index sets in range"],
     "stubs": ["sparse matrices with symbolic data -> SymSparse (dense-backed, concrete pattern, canonical "
               "sorted compressed arrays; in-place assignment of indptr/indices/data/_shape is re-assembled "
@@ -82,6 +82,12 @@ def _cases(tier, seed):
                         shp = (k, n) if fmt == "csr" else (m, k)
                         Q = _patterns(rnd, shp[0], shp[1], 4)[rnd.randrange(4)]
                         out.append({"kind": "merge", "fmt": fmt, "P": P, "Q": Q, "lines": lines})
+                        if k > 1:
+                            # the same replacement with the lines given in another order (A[lines] = B semantics)
+                            perm = lines[:]
+                            while perm == lines:
+                                rnd.shuffle(perm)
+                            out.append({"kind": "merge", "fmt": fmt, "P": P, "Q": Q, "lines": perm})
                 for ind in _subsets(rnd, nmaj, nsub, ordered=False, repeats=True)[1:]:
                     for how in ("array", "bool", "int", "npint"):
                         if how == "bool":
